@@ -78,7 +78,8 @@ Inductive action :=
 | ACommit (l : N) (k : nat) (Q : list N)
 | AFlush (n : N) (k : nat)
 | ACrash (n : N) (c : nat)
-| AInstall (f t l : N) (K : list entry) (c : nat).
+| AInstall (f t l : N) (K : list entry) (c : nat)
+| ARecvCut (f : N) (m : areq) (k : nat).
 
 Definition is_leader (r : Role) : bool := match r with Leader => true | _ => false end.
 Definition is_cand (r : Role) : bool := match r with Candidate => true | _ => false end.
@@ -105,7 +106,14 @@ Definition apply (a : action) (s : state) : state :=
   | AFlush n k => do_flush n k s
   | ACrash n c => do_crash n c s
   | AInstall f t l K c => do_install f t l K c s
+  | ARecvCut f m k => do_recv f (trunc_req m k) (do_trunc m k s)
   end.
+
+(* follower f may accept request m *)
+Definition recvb (f : N) (m : areq) (s : state) : bool :=
+  let x := st s f in
+  inb areq_eq_dec m (appends s) && (cur x <=? rterm m) && negb (rldr m =? f) &&
+  prev_ok (log x) (rprevIdx m) (rprevTerm m).
 
 Definition guardb (a : action) (s : state) : bool :=
   match a with
@@ -129,10 +137,7 @@ Definition guardb (a : action) (s : state) : bool :=
   | ASend l pi k c =>
       let x := st s l in
       is_leader (role x) && (pi <=? length (log x))%nat && (c <=? commit x)%nat
-  | ARecv f m =>
-      let x := st s f in
-      inb areq_eq_dec m (appends s) && (cur x <=? rterm m) && negb (rldr m =? f) &&
-      prev_ok (log x) (rprevIdx m) (rprevTerm m)
+  | ARecv f m => recvb f m s
   | AAck l v i =>
       is_leader (role (st s l)) && inb ack_eq_dec (cur (st s l), v, i) (acks s)
   | ACommit l k Q =>
@@ -149,6 +154,8 @@ Definition guardb (a : action) (s : state) : bool :=
       existsb (fun r => (fst (fst r) <=? t) && (length K <=? snd (fst r))%nat &&
                         log_eqb K (firstn (length K) (snd r))) (cmts s) &&
       (commit x <=? c)%nat && (c <=? Nat.max (commit x) (length K))%nat
+  | ARecvCut f m k =>
+      inb areq_eq_dec m (appends s) && recvb f (trunc_req m k) (do_trunc m k s)
   end.
 End Run.
 
@@ -162,9 +169,18 @@ Ltac splitb :=
   | H : _ && _ = true |- _ => apply andb_true_iff in H; destruct H
   end.
 
-Lemma guardb_sound V0 gb a s : guardb V0 gb a s = true -> gstep V0 gb s (apply a s).
+Lemma recvb_sound V0 gb f m s : recvb f m s = true -> gstep V0 gb s (do_recv f m s).
 Proof.
-  destruct a; simpl; intro H; splitb.
+  unfold recvb. intro H. splitb. apply SRecv.
+  - apply (inb_In _ _ _ H).
+  - apply N.leb_le; assumption.
+  - apply negb_true_iff, N.eqb_neq in H1. exact H1.
+  - assumption.
+Qed.
+
+Lemma guardb_sound V0 gb a s : guardb V0 gb a s = true -> gsteps V0 gb s (apply a s).
+Proof.
+  destruct a; simpl; intro H; splitb; [apply gsteps_one .. | ].
   - apply SStart. apply (inb_In _ _ _ H).
   - apply (SGrant _ _ _ v t c L).
     + apply (inb_In _ _ _ H).
@@ -190,11 +206,7 @@ Proof.
     + apply negb_true_iff, Nat.eqb_neq in H1. intro Hn. subst D. apply H1. reflexivity.
     + apply nearb_near; assumption.
   - apply SSend; [apply is_leader_ok; assumption | apply Nat.leb_le; assumption ..].
-  - apply SRecv.
-    + apply (inb_In _ _ _ H).
-    + apply N.leb_le; assumption.
-    + apply negb_true_iff, N.eqb_neq in H1. exact H1.
-    + assumption.
+  - apply recvb_sound. exact H.
   - apply SAck; [apply is_leader_ok; assumption | apply (inb_In _ _ _ H0)].
   - apply (SCommit _ _ _ l k Q).
     + apply is_leader_ok; assumption.
@@ -221,6 +233,9 @@ Proof.
     apply (SInstall _ _ _ f t l K L0 tc k M c); try assumption; try lia.
     unfold log_eqb in *.
     destruct (list_eq_dec entry_eq_dec K (firstn (length K) M)); [assumption | discriminate].
+  - apply (gs_cons V0 gb s (do_trunc m k s)).
+    + apply STrunc. apply (inb_In _ _ _ H).
+    + apply gsteps_one. apply recvb_sound. exact H0.
 Qed.
 
 Fixpoint run (V0 : list N) (gb : bool) (acts : list action) (s : state) : option state :=
@@ -235,7 +250,7 @@ Proof.
   induction acts as [|a r IH]; simpl; intros s s' Hs H.
   - inversion H. subst. exact Hs.
   - destruct (guardb V0 gb a s) eqn:G; [|discriminate].
-    apply (IH _ _ (GR_step V0 gb s _ Hs (guardb_sound V0 gb a s G)) H).
+    apply (IH _ _ (gsteps_reachable V0 gb s _ Hs (guardb_sound V0 gb a s G)) H).
 Qed.
 
 (* index of the first action whose guard fails (debugging aid) *)
